@@ -2,12 +2,14 @@
 //! vcheck-bin <ID> --replay <file>           strict replay of one case file
 //! (internal) --child                        run inside a supervised child process
 
+mod exec;
 mod gen_stmt;
 mod props;
 mod run;
 mod sql;
 mod stmt;
 mod tape;
+mod value;
 
 use std::path::PathBuf;
 use std::sync::Arc;
@@ -70,6 +72,7 @@ fn main() {
     let code = match args[0].as_str() {
         "C13" => dispatch(props::c13::C13, &args),
         "C14" => dispatch(props::c14::C14, &args),
+        "C17" => dispatch(props::c17::C17, &args),
         "C20" => dispatch(props::c20::C20, &args),
         other => {
             eprintln!("unknown property '{}'", other);
